@@ -145,6 +145,16 @@ for _a in ("f32", "f64", "c64", "c128"):
         PROMOTE[(_a, _b)] = {np.dtype(v): k for k, v in _m.items()}[np.dtype(_pt(_m[_a], _m[_b]))]
 
 
+def tol_dt(c, scalar_kinds=()):
+    """dtype class whose tolerance applies: the lowest precision among the leaves and scalar objects
+    (one single-precision ingredient limits the accuracy of the whole expression)."""
+    single = bool(dts_in(c["t"]) & {"f32", "c64"}) or bool(set(scalar_kinds) & {"npf32", "np0d", "npc64"})
+    dt = c.get("dt", "f64")
+    if single:
+        return {"f64": "f32", "c128": "c64"}.get(dt, dt)
+    return dt
+
+
 def nontrivial(c):
     return len(c["t"]["a"]) > 0
 
